@@ -317,7 +317,7 @@ SEND = f"{ASH}:AshProtocol._send_data_frame"
 ACK_OUTCOMES = Outcomes(OK(True), RAISE("NotAcked"), RAISE("NcpFailure"), RAISE("TimeoutError"), RAISE("CancelledError"))
 
 
-def explore_send(ctx, tx_seq=5, outcomes=ACK_OUTCOMES, states=("CONNECTED", "FAILED"), extra_models=(), rx_values=None):
+def explore_send(ctx, tx_seq=5, outcomes=ACK_OUTCOMES, states=("CONNECTED", "FAILED"), extra_models=(), rx_values=None, extra_volatile=None):
     repo = ctx.repo
     f = repo.func(SEND)
     cls = ash_cls(ctx)
@@ -327,6 +327,7 @@ def explore_send(ctx, tx_seq=5, outcomes=ACK_OUTCOMES, states=("CONNECTED", "FAI
 
     def setup():
         vol = {"_ncp_state": [ns[n] for n in states]}
+        vol.update(extra_volatile or {})
         if rx_values:
             vol["_rx_seq"] = list(rx_values)  # frames from the NCP are accepted between the attempts: the expected number moves on
         s = self_obj(cls, {"_tx_seq": tx_seq, **({} if rx_values else {"_rx_seq": Sym("rx")}), "_pending_data_frames": {},
@@ -496,6 +497,48 @@ def r05_send_skeleton(ctx):
     ctx.sample({"paths": len(paths), "example": paths[len(paths) // 2].trace(40)})
 
 
+def _counters_reset_from_outside(ctx):
+    """Bookkeeping the send keeps in *new* attributes of the protocol object (a failure counter, say) that a frame handler also
+    writes - reset "because the NCP is alive" by any ACK frame - can change while the send waits: such attributes are explored as
+    volatile (either untouched or reset to the handler's constant at every wait).  Whatever they do, a send whose every attempt
+    meets silence ends by raising after exactly ACK_TIMEOUTS transmissions with the failed state entered once - it never
+    returns normally without an acknowledgement."""
+    from .util import _pinned_attrs, init_constants
+
+    repo = ctx.repo
+    cls = ash_cls(ctx)
+    N = const(ctx, ASH, "ACK_TIMEOUTS", int)
+    try:
+        known = _pinned_attrs(cls)
+        consts = init_constants(cls)
+    except AnalysisError:
+        return
+    vol = {}
+    for a, thunk in consts.items():
+        if a in known or not isinstance(thunk(), int) or isinstance(thunk(), bool):
+            continue
+        vals = set()
+        for g, n, kind in index(repo).writers(a):
+            if g.cls is None or g.cls.name != "AshProtocol" or g.name in ("__init__", "_send_data_frame"):
+                continue
+            for st in ast.walk(g.node):
+                if isinstance(st, ast.Assign) and any(t is n for t in st.targets) and isinstance(st.value, ast.Constant) and isinstance(st.value.value, int):
+                    vals.add(st.value.value)
+        if vals:
+            vol[a] = sorted(vals) + ["__keep__"]
+    if not vol:
+        ctx.ok(1, "no-new-shared-counters")
+        return
+    f, px, paths, ns = explore_send(ctx, 5, Outcomes(RAISE("TimeoutError")), states=("CONNECTED",), extra_volatile=vol)
+    for p in paths:
+        ws, aw = send_writes(p), send_awaits(p)
+        fails = [e for e in p.events if e.kind == "call" and e.what.endswith("_enter_failed_state")]
+        ok = p.terminal == "raise" and len(ws) <= N and (len(ws) < N or len(fails) == 1)
+        ctx.require(ok, "_send_data_frame:counter-reset-from-outside", f"every attempt meets silence while {sorted(vol)} is reset by a frame handler during the waits: the send "
+                    f"writes {len(ws)} frames (budget {N}), {p.terminal}s {p.value if p.terminal == 'raise' else ''}, failed state entered {len(fails)}x; it must raise after "
+                    "the budget with the failed state entered once", func=f, trace=p.trace(30), props=("C05", "C01"))
+
+
 def _fresh_ack_numbers(ctx):
     """Every (re)transmission carries the acknowledgement number that is current when it is written: the expected number is
     made to change between attempts (the NCP's own frames keep arriving and are accepted while the host retransmits) and each
@@ -523,6 +566,7 @@ def r05_2(ctx):
     """Frame numbers are consecutive modulo 8: for every value 0..7 of the send counter the send uses exactly
     that number and stores (value + 1) % 8; the counter is written only by initialisers and explored functions."""
     _fresh_ack_numbers(ctx)
+    _counters_reset_from_outside(ctx)
     for t in range(8):
         f, px, paths, ns = explore_send(ctx, tx_seq=t, outcomes=Outcomes(OK(True)), states=("CONNECTED",))
         ctx.paths += len(paths)
